@@ -663,6 +663,10 @@ def call_method(spec, fn, case):
 
 def call_real(spec, fn, args):
     """args: dict lean-parameter-name -> python value.  Returns ('ok', value) | ('exc', class name)"""
+    if spec.get('py_call') and spec.get('ext'):
+        # the extension module calls the function itself (spec-declared externals passed as parameters)
+        import importlib
+        return importlib.import_module(spec['ext']).py_call(spec, fn, args)
     pos = [args[py2lean.mangle(p)] for p in spec['params']]
     try:
         with common.time_limit(5):
